@@ -115,7 +115,7 @@ prop("C03", "exploration", HIST_RULE + "; C03 monitor M-excl: every Locked outpu
      {"quick": 3000, "thorough": 40000},
      ["deliveries of one slate to a different account are judged only by the exclusivity invariants (the statement says 'the same step')",
       "histories of this check never cancel after broadcast"],
-     required_hist=["repeat:tx_lock_outputs:refused", "repeat:receive_tx:refused", "repeat:finalize_tx:refused", "finalized-inputs-checked", "op:cancel", "op:restart", "op:lock-called-on-a-late-locked-send-before-finalize:ok", "repeat:receive_tx(into-another-account):refused", "repeat:process_invoice_tx(from-another-account):refused"])
+     required_hist=["repeat:tx_lock_outputs:refused", "repeat:receive_tx:refused", "repeat:finalize_tx:refused", "finalized-inputs-checked", "op:cancel", "op:restart", "op:lock-called-on-a-late-locked-send-before-finalize:ok", "repeat:receive_tx(into-another-account):refused", "op:finalize-of-a-self-paid-invoice-whose-paying-half-is-not-reserved", "repeat:process_invoice_tx(from-another-account):refused"])
 
 prop("C04", "exploration", HIST_RULE + "; C04 monitor M-books at every validated refresh: wallet records Unspent/Locked <=> commitment in the chain's UTXO set "
      "(plus: no UTXO commitment ever held by the account is forgotten), reported spendable/immature/awaiting/locked/total for minimum_confirmations "
